@@ -145,7 +145,7 @@ func c16RunHandoff(m *vk.M, idx int, hc c16HandoffCase) (nontrivial, ok bool) {
 		mu.Unlock()
 	}
 	hang := func(op string) (bool, bool) {
-		m.Violate("C16:hang:"+op, desc, "%s made no progress for %v in the staged hand-off; library goroutines:\n%s", op, c16Stall, c16LibStacks())
+		c16Viol(m, "C16:hang:"+op, desc, "%s made no progress for %v in the staged hand-off; library goroutines:\n%s", op, c16Stall, c16LibStacks())
 		return false, false
 	}
 	// batch k
@@ -251,6 +251,7 @@ func TestVerifC16Handoff(t *testing.T) {
 	defer timex.VerifRealClock()
 	reps := vk.N(2, 40)
 	idx := 0
+	base := atomic.LoadInt64(&c16Costly)
 	for rep := 0; rep < reps; rep++ {
 		for _, kind := range []string{"bulk", "chunk", "periodical"} {
 			for batch := 1; batch <= 4; batch++ {
@@ -259,7 +260,7 @@ func TestVerifC16Handoff(t *testing.T) {
 					if !m.Only(idx) {
 						continue
 					}
-					if m.ViolCount() >= c16EnoughWitnesses {
+					if c16Enough(base) {
 						m.Note("stopped before case %d: enough witnesses", idx)
 						return
 					}
@@ -324,9 +325,9 @@ func c16TickLiveness(m *vk.M, desc string, s *c16Sys, tasks []c16Task) (held boo
 	s.mu.Unlock()
 	created, stopped := s.tks.counts()
 	if len(s.tks.live()) == 0 {
-		m.Violate("C16:stranded-after-quit", desc, "tasks %v: Add returned, but no background flusher is alive (tickers created %d, stopped %d), every library goroutine is gone or parked, and the tasks were not executed: only a later Add/Flush/Wait could still run them", missing, created, stopped)
+		c16Viol(m, "C16:stranded-after-quit", desc, "tasks %v: Add returned, but no background flusher is alive (tickers created %d, stopped %d), every library goroutine is gone or parked, and the tasks were not executed: only a later Add/Flush/Wait could still run them", missing, created, stopped)
 	} else {
-		m.Violate("C16:tick-did-not-flush", desc, "tasks %v: Add returned, the flusher then took %d ticks and is parked in its select again, and the tasks were still not executed", missing, delivered)
+		c16Viol(m, "C16:tick-did-not-flush", desc, "tasks %v: Add returned, the flusher then took %d ticks and is parked in its select again, and the tasks were still not executed", missing, delivered)
 	}
 	return false, delivered
 }
@@ -363,7 +364,7 @@ func c16RunIdle(m *vk.M, idx int, ic c16IdleCase) (class string, ok bool) {
 		mu.Unlock()
 	}
 	hang := func(op string) (string, bool) {
-		m.Violate("C16:hang:"+op, desc, "%s made no progress for %v around the flusher's idle quit; library goroutines:\n%s", op, c16Stall, c16LibStacks())
+		c16Viol(m, "C16:hang:"+op, desc, "%s made no progress for %v around the flusher's idle quit; library goroutines:\n%s", op, c16Stall, c16LibStacks())
 		return "", false
 	}
 	seq := 1
@@ -519,6 +520,7 @@ func TestVerifC16Idle(t *testing.T) {
 	r := m.Rand("idle")
 	n := vk.N(360, 6000)
 	quits := int64(0)
+	base := atomic.LoadInt64(&c16Costly)
 	for idx := 1; idx <= n; idx++ {
 		ic := c16IdleCase{Variant: []string{"tick-first", "add-first", "racing", "tick-first", "racing", "plain", "after-commanded"}[idx%7]}
 		ic.Cfg.Kind = []string{"bulk", "chunk", "periodical"}[r.Intn(3)]
@@ -532,7 +534,7 @@ func TestVerifC16Idle(t *testing.T) {
 		if !m.Only(idx) {
 			continue
 		}
-		if m.ViolCount() >= c16EnoughWitnesses {
+		if c16Enough(base) {
 			m.Note("stopped before case %d: enough witnesses", idx)
 			break
 		}
